@@ -129,6 +129,12 @@ func (c notifier) CloseNotify(ctx context.Context, exitCode uint32) {
 
 var (
 	emptyBin = (&wb.Module{Mem: &wb.Limits{Min: 1, Max: 2, HasMax: true}}).Encode() // has a memory: a resource to release
+	// fnBin: the guest of the scenarios that call into modules (ctxCall/call): a memory and an exported no-op
+	fnBin = func() []byte {
+		m := &wb.Module{Mem: &wb.Limits{Min: 1, Max: 2, HasMax: true}}
+		m.ExportFunc("f", m.AddFunc(nil, nil, nil, (&wb.Asm{}).B))
+		return m.Encode()
+	}()
 	otherBin = func() []byte {
 		m := &wb.Module{}
 		m.ExportFunc("f", m.AddFunc(nil, []byte{wb.I32}, nil, (&wb.Asm{}).I32Const(1).B))
@@ -170,8 +176,21 @@ func runOne(c Case, prefix []int) *execution {
 	} else {
 		wasm.VerifSetNameToModuleShrinkThreshold(100)
 	}
+	calls := false // scenarios that call into the modules run with close-on-context-done and a guest that exports a function
+	for _, th := range c.Scn.Threads {
+		for _, o := range th {
+			if o.K == "ctxCall" || o.K == "call" || o.K == "asyncCtxCall" {
+				calls = true
+			}
+		}
+	}
+	bin := emptyBin
+	if calls {
+		cfg = cfg.WithCloseOnContextDone(true)
+		bin = fnBin
+	}
 	rt := wazero.NewRuntimeWithConfig(ctx, cfg)
-	compiled, err := rt.CompileModule(ctx, emptyBin)
+	compiled, err := rt.CompileModule(ctx, bin)
 	if err != nil {
 		fw.Fatalf("compile: %v", err)
 	}
@@ -286,6 +305,43 @@ func runOne(c Case, prefix []int) *execution {
 				return
 			}
 			ev.Out = strconv.FormatBool(x.mods[ev.target].IsClosed())
+		case "ctxCall", "call":
+			// ctxCall: call the export with an already cancelled context: under close-on-context-done this closes
+			// the module (code sys.ExitCodeContextCanceled) and the call fails; call: a plain call, which succeeds
+			// exactly when the module is open.
+			if ev.target < 0 || x.mods[ev.target] == nil {
+				ev.Out = "skip"
+				return
+			}
+			cctx := ctx
+			if o.K == "ctxCall" {
+				var cancel context.CancelFunc
+				cctx, cancel = context.WithCancel(ctx)
+				cancel()
+			}
+			_, err := x.mods[ev.target].ExportedFunction("f").Call(cctx)
+			ev.Out = errStr(err)
+		case "asyncCtxCall":
+			// A call whose context is cancelled while it is in flight, in the three steps the engines take: the
+			// watcher goroutine's body (the real closeModuleOnCanceledOrTimeout, run here as part of this thread)
+			// marks the module closed WITHOUT releasing its resources; the function notices and unwinds; the call's
+			// deferred FailIfClosed releases the resources and yields the exit error. Other threads interleave
+			// between the steps.
+			if ev.target < 0 || x.mods[ev.target] == nil {
+				ev.Out = "skip"
+				return
+			}
+			mi, ok := x.mods[ev.target].(*wasm.ModuleInstance)
+			if !ok {
+				ev.Out = "skip"
+				return
+			}
+			cctx, cancel := context.WithCancel(ctx)
+			cancel()
+			vsched.Yield("call-in-flight", nil)
+			mi.VerifRunContextWatcher(cctx)
+			vsched.Yield("call-unwinding", nil)
+			ev.Out = errStr(mi.FailIfClosed())
 		case "rtClose":
 			ev.Out = errStr(rt.Close(ctx))
 		case "rtCloseCode":
@@ -482,6 +538,26 @@ func (s *modelState) step(ev *event, part int, relax int) (string, bool) {
 			return "skip", true
 		}
 		return strconv.FormatBool(!s.open[ev.target]), true
+	case "call":
+		if ev.Out == "skip" {
+			return "skip", true
+		}
+		if s.open[ev.target] {
+			return "ok", true
+		}
+		return "err", true
+	case "ctxCall", "asyncCtxCall": // closes the module atomically (like Close) and always fails
+		if ev.Out == "skip" {
+			return "skip", true
+		}
+		id := ev.target
+		s.open[id] = false
+		for k, v := range s.names {
+			if v == id {
+				delete(s.names, k)
+			}
+		}
+		return "err", true
 	case "rtClose", "rtCloseCode":
 		closeAll := func() {
 			for k := range s.open {
@@ -806,7 +882,7 @@ func buildCases(run *fw.Run) []Case {
 			closes := len(s.Pre) > 0
 			for _, th := range s.Threads {
 				for _, o := range th {
-					if o.K == "close" || o.K == "closeCode" || o.K == "rtClose" || o.K == "rtCloseCode" {
+					if o.K == "close" || o.K == "closeCode" || o.K == "rtClose" || o.K == "rtCloseCode" || o.K == "ctxCall" || o.K == "asyncCtxCall" {
 						closes = true
 					}
 				}
